@@ -462,6 +462,49 @@ func c14Run(c *core.Ctx) {
 					lead = nil // only for helpers with a small word alphabet (their own file)
 				}
 			}
+			// text with a life of its own: characters whose upper- or lower-case form has a different UTF-8 length, ill-formed
+			// and overlong sequences, a surrogate, a byte-order mark, NUL — one, two or eight of them alone, in front of and
+			// behind every word, as text behind every leading octet (code that maps case, trims or searches in one copy of a
+			// text and cuts in another is off by the difference)
+			{
+				allLead := lead
+				if allLead == nil {
+					seen := map[byte]bool{}
+					for hi := byte(0); hi < 8; hi++ {
+						for lo := byte(0); lo < 8; lo++ {
+							if b := hi<<4 | lo; !seen[b] {
+								seen[b] = true
+								allLead = append(allLead, b)
+							}
+						}
+					}
+				}
+				specials := []string{"\u212a", "\u0130", "\u2126", "\u1e9e", "\u017f", "\u0131", "\ufb00", "\ufeff", "\x00", "\xff", "\xc0\xaf", "\xed\xa0\x80"}
+				u++
+				if c.Mine(u) && c.Begin("special-text", h.name, c14Case{Helper: h.name, Hex: "e284aa"}) {
+					put := func(b []byte) {
+						run(b)
+						if len(b) <= 255 {
+							run(append([]byte{byte(len(b))}, b...))
+						}
+						for _, t := range allLead {
+							run(append([]byte{t}, b...))
+						}
+					}
+					for _, sp := range specials {
+						for _, r := range []int{1, 2, 8} {
+							rr := strings.Repeat(sp, r)
+							put([]byte(rr))
+							for _, w := range words {
+								put([]byte(rr + w))
+								put([]byte(w + rr))
+								put([]byte(rr + w + rr))
+							}
+						}
+					}
+					c.Tick()
+				}
+			}
 			four := len(words) <= 10 || thorough && len(words) <= 12
 			// novelty-directed depth: sequences of up to five of the words the pinned tree does not have
 			if novel := c14NovelWords(h.name); len(novel) > 0 {
